@@ -9,7 +9,6 @@
   The world is the trace of effectful calls, so that their ORDER is part of the statement.
 -/
 import Ioc.GoSem
-import Ioc.Registry
 import Ioc.Generated.Progs
 namespace Ioc.Sem
 open Ioc Ioc.Go
@@ -19,14 +18,13 @@ structure DCC where
   n : Nat
   singleton : Bool                    -- meta.IsSingleton()
   allow : Bool                        -- f.allowCircularReferences
-  inCreation : Bool                   -- IsSingletonCurrentlyInCreation(name) at entry
   populateOk : Bool                   -- populateComponent succeeds
   initRes : Option Nat                -- InitializeComponent: `some v` = returns the object of version v (0 = the instance itself), `none` = error
   proxyOk : Bool                      -- genProxyComponent succeeds
   earlyRes : Option (Option Nat)      -- GetSingleton(name, false): `none` = error, `some none` = nil, `some (some e)` = early reference of version e
   depsEarly : List Nat                -- earlySingletonReference.GetDependents()
   depsRaw : List Nat                  -- meta.GetDependents()
-  inCrOf : Nat → Bool                 -- IsSingletonCurrentlyInCreation(dependent)
+  inCrOf : Nat → Bool                 -- IsSingletonCurrentlyInCreation(·): of the component itself at entry, of its dependents at the end
 
 def errC : Val := .str "error"
 
@@ -34,7 +32,7 @@ def dccFn (d : DCC) : String → List Val → List String → Option (Val × Lis
   | ".IsSingleton", [.ref _ 0], t => some (.bool d.singleton, t)
   | "$self.allowCircularReferences", [], t => some (.bool d.allow, t)
   | "self.singletonComponentRegistry.IsSingletonCurrentlyInCreation", [.int m], t =>
-      some (.bool (if m.toNat = d.n then d.inCreation else d.inCrOf m.toNat), t)
+      some (.bool (d.inCrOf m.toNat), t)
   | "self.populateComponent", [.int _, .ref _ 0], t => some (if d.populateOk then .nil else errC, t ++ ["populate"])
   | ".Raw", [.ref m 0], t => some (.ref m 1000, t)
   | "self.postProcessorRegistrationDelegate.InitializeComponent", [.int m, .ref _ 1000], t =>
@@ -64,7 +62,7 @@ def dccPrims (d : DCC) : Prims (List String) := { fn := dccFn d, hfn := dccHfn }
 
 /-- what doCreateComponent returns (version of the exposed component, or an error) and the calls it made, in order -/
 def createDecision (d : DCC) : Option Nat × List String :=
-  let exposure := d.singleton && d.allow && d.inCreation
+  let exposure := d.singleton && d.allow && d.inCrOf d.n
   let t0 := if exposure then ["addFactory"] else []
   if !d.populateOk then (none, t0 ++ ["populate"]) else
   match d.initRes with
